@@ -7,6 +7,7 @@ import MocModel.Drv.Handlers
 import MocModel.Drv.Conc
 import MocModel.Drv.Codec
 import MocModel.Drv.Auth
+import MocModel.Drv.Gate
 open Moc.Drv
 
 def handlers : List (String × Handler) := [
@@ -19,7 +20,8 @@ def handlers : List (String × Handler) := [
   ("C16", HandlersD.handler),
   ("C15", ConcD.handler),
   ("codec", CodecD.handler),
-  ("C01", AuthD.handler)
+  ("C01", AuthD.handler),
+  ("ws", GateD.handler)
 ]
 
 def main (args : List String) : IO UInt32 := do
